@@ -747,6 +747,7 @@ func (lb *LoadBalancer) proxyRequest(backend *Backend, w http.ResponseWriter, r 
 	rw := &responseWriter{
 		ResponseWriter: w,
 		statusCode:     http.StatusOK, // Default status code
+		preset:         w.Header().Clone(),
 	}
 
 	// Release the connection slot and account for the request even when the
@@ -830,10 +831,18 @@ func (lb *LoadBalancer) handlePassiveHealthCheck(backend *Backend, statusCode in
 type responseWriter struct {
 	http.ResponseWriter
 	statusCode int
+	preset     http.Header // headers set before proxying (request / trace IDs, plugins)
 }
 
 // WriteHeader captures the status code
 func (rw *responseWriter) WriteHeader(statusCode int) {
+	// The reverse proxy clears the header map after every interim (1xx)
+	// response; what was set on the way in belongs on the final response too
+	for k, v := range rw.preset {
+		if _, ok := rw.Header()[k]; !ok {
+			rw.Header()[k] = v
+		}
+	}
 	// A backend response without Content-Type must stay without one:
 	// a nil entry keeps net/http from sniffing and adding its own
 	if _, ok := rw.Header()["Content-Type"]; !ok {
